@@ -277,10 +277,11 @@ class ResourceMap:
         supermap).
         """
         # Before scrapping everything, update their parent information
-        for handle in self.handles.values():
-            if handle.parent == self:
-                handle.parent = None
-                handle.key = None
+        for layer in self.handles.maps:         # Shadowed handles too
+            for handle in layer.values():
+                if handle.parent == self:
+                    handle.parent = None
+                    handle.key = None
 
         for map_ in self.maps.values():
             if map_.parent == self:
@@ -288,7 +289,7 @@ class ResourceMap:
                 map_.key = None
 
         self.maps.clear()
-        self.handles.clear()
+        self.handles.maps[:] = [{}]
 
     def get_static_map(self) -> StaticResourceMap:
         """Generate a static map for convenience resource access.
